@@ -1,7 +1,7 @@
 (* C18 - The generated diagram is a faithful picture of the machine.  Statements only. *)
-From Coq Require Import List Arith Bool.
+From Coq Require Import List Arith Bool Permutation.
 Import ListNotations.
-From PySM Require Import Impl.Diagram Proofs.DiagramProofs.
+From PySM Require Import Impl.Diagram Proofs.DiagramProofs Proofs.DiagramCount.
 
 (* exactly one node per state plus the initial pseudo-node, no identifier twice *)
 Theorem C18_one_node_per_state :
@@ -30,6 +30,20 @@ Theorem C18_edges_are_external_transitions :
   forall m e, In e (tl (graph_edges m)) -> exists t, In t (dm_trans m) /\ dt_internal t = false /\ e = trans_edge t.
 Proof. exact every_edge_is_an_external_transition. Qed.
 Print Assumptions C18_edges_are_external_transitions.
+
+(* ... with multiplicity: the transition edges are, up to order, exactly the list of external
+   transitions - none is dropped and none is drawn twice, however many transitions connect the same
+   two states *)
+Theorem C18_one_edge_per_external_transition :
+  forall m, well_formed m ->
+    Permutation (tl (graph_edges m)) (map trans_edge (filter external (dm_trans m))).
+Proof. exact edges_exactly_external. Qed.
+Print Assumptions C18_one_edge_per_external_transition.
+
+Theorem C18_edge_count :
+  forall m, well_formed m -> length (graph_edges m) = S (length (filter external (dm_trans m))).
+Proof. exact edge_count. Qed.
+Print Assumptions C18_edge_count.
 
 (* internal transitions are listed inside their state *)
 Theorem C18_internal_inside_state :
